@@ -139,7 +139,7 @@ def main():
     t0 = time.time()
     tot = collections.Counter(); stats = collections.Counter(); called = set(); samples = []; jobinfo = []
     inconclusive = []; violations = []; known_hits = []; unreached = []
-    rdir = os.path.join(VERIF, 'replays', prop); os.makedirs(rdir, exist_ok=True)
+    rdir = os.path.join(os.environ.get('VERIF_REPLAY_DIR', os.path.join(VERIF, 'replays')), prop); os.makedirs(rdir, exist_ok=True)
     for job in joblist:
         log('[%s] job %s: %s %s' % (prop, job.name, job.harness, ' '.join(job.defs)))
         R = run_job(prop, job, tier, a.workers)
@@ -214,8 +214,9 @@ def main():
               wall_s=round(wall, 2), violations=len(violations))
     if ev['coverage']['states'] < 1: ev['coverage']['states'] = 1
     if ev['coverage']['transitions'] < 1: ev['coverage']['transitions'] = 1
-    os.makedirs(os.path.join(VERIF, 'evidence'), exist_ok=True)
-    json.dump(ev, open(os.path.join(VERIF, 'evidence', prop + '.json'), 'w'), indent=1, default=str)
+    evdir = os.environ.get('VERIF_EVIDENCE_DIR', os.path.join(VERIF, 'evidence'))     # seeded/try.sh redirects it
+    os.makedirs(evdir, exist_ok=True)
+    json.dump(ev, open(os.path.join(evdir, prop + '.json'), 'w'), indent=1, default=str)
     for u in unreached: log('NOTE ' + u)
     for (kf, jn, kind, msg, rp) in known_hits:
         log('KNOWN-FINDING: property=%s %s (job %s, %s: %s, replay=%s)' % (prop, kf.get('what', kf['line']), jn, kind, msg, rp))
